@@ -775,6 +775,11 @@ def rule_mask_consume(check, model, rule):
             if good:
                 check.holds(rule, st, 'trip count is num_args: one decrement per popped parameter, exit when the counter reaches zero',
                             key=key + '|count')
+    if n == 0:
+        # second idiom: consumption by slicing,  PO' = PO[n:],  POK' = POK[max(0, n - len(PO)):]
+        done = _consume_by_slices(check, model, rule)
+        if done:
+            return
     check.floor(rule, 'consuming loops', n, 1)
     # exhaustion exit
     n2 = 0
@@ -826,6 +831,55 @@ def rule_mask_consume(check, model, rule):
                         witness="mask(s('a, b'), 1) must be (b)")
     else:
         check.inconclusive(rule, st, '_pop_chain not understood', key=key)
+
+
+def _consume_by_slices(check, model, rule):
+    proto = model.proto
+    iPO, iPOK, iVP = proto.index_of_kind('PO'), proto.index_of_kind('POK'), proto.index_of_kind('VP')
+    num = model.role_term('num_args')
+    PO, POK = ('S', model.sr, K(iPO)), ('S', model.sr, K(iPOK))
+    judged = False
+    seen = set()
+    for p, items in model.ret_paths:
+        g, unknown = flag_vals(model, p)
+        if g.get('hide_args') is not False or g.get('num_args') is not True or g.get('hide_kwargs') is True:
+            continue
+        po = items[iPO]
+        pok, _lp = model.resolve_after(items[iPOK], p)
+        key = '_signatures:_mask|consume-slices'
+        if key in seen:
+            continue
+        node = [e for e in p.effects if e.kind == 'return'][-1].node
+        st = site(None, node)
+        if not (po[0] == 'SL' and po[1] == PO and pok is not None and pok[0] == 'SL' and pok[1] == POK):
+            return False
+        seen.add(key)
+        judged = True
+        msgs = []
+        if po[2] != num or po[3] != NONE:
+            msgs.append('positional-only parameters are cut as %s, expected [num_args:]' % show(po)[:60])
+        lo = pok[2]
+        want_len = ('C', 'len', (PO,), ())
+        ok = lo[0] == 'C' and lo[1] == 'max' and len(lo[2]) == 2 and K(0) in lo[2]
+        inner = None
+        if ok:
+            inner = [x for x in lo[2] if x != K(0)][0]
+            ok = inner[0] == 'B' and inner[1] == 'Sub' and inner[2] == num
+        if not ok or pok[3] != NONE:
+            check.inconclusive(rule, st, 'slice-based consumption: start of the positional-or-keyword cut not understood: %s' % show(lo)[:80], key=key)
+            continue
+        ln = inner[3]
+        if ln == want_len:
+            check.holds(rule, st, 'positional-or-keyword parameters are cut at max(0, num_args - len(<all positional-only parameters>))', key=key)
+        elif ln[0] == 'C' and ln[1] == 'len' and ln[2] and ln[2][0][0] == 'SL' and ln[2][0][1] == PO:
+            check.violation(rule, st, 'the number of positional-or-keyword parameters to consume is computed from the length of the *already cut* '
+                            'positional-only list (%s): with positional-only parameters present, too many regular parameters are consumed'
+                            % show(ln)[:60], key=key, witness="mask(s('a, /, b, c'), 1) must be (b, c)")
+        else:
+            check.inconclusive(rule, st, 'slice-based consumption: %s' % show(ln)[:80], key=key)
+        for m_ in msgs:
+            check.violation(rule, st, m_, key=key + '|po', witness="mask(s('a, /, b'), 1) must be (b)")
+    return judged
 
 
 def _raise_in_prefix(p):
